@@ -1510,6 +1510,73 @@ def pattern_rem32(context, tree, c0, c1):
     return d2
 
 
+@arm_isa.pattern("reg", "REMU32(reg, reg)")
+def pattern_rem_u32(context, tree, c0, c1):
+    # remainder = divident - quotient * divisor
+    d = call_internal2(context, "__udiv", c0, c1)
+    d2 = context.new_reg(ArmRegister)
+    context.emit(Mls(d2, d, c1, c0))
+    return d2
+
+
+# The quotient and remainder depend on all bits of the operands. The high
+# bits of a register with an 8 or 16 bit value are not defined, extend first:
+@arm_isa.pattern("reg", "DIVI8(reg, reg)")
+def pattern_div_i8(context, tree, c0, c1):
+    a = sign_extend_reg(context, c0, 8)
+    b = sign_extend_reg(context, c1, 8)
+    return pattern_divi32(context, tree, a, b)
+
+
+@arm_isa.pattern("reg", "DIVI16(reg, reg)")
+def pattern_div_i16(context, tree, c0, c1):
+    a = sign_extend_reg(context, c0, 16)
+    b = sign_extend_reg(context, c1, 16)
+    return pattern_divi32(context, tree, a, b)
+
+
+@arm_isa.pattern("reg", "DIVU8(reg, reg)")
+def pattern_div_u8(context, tree, c0, c1):
+    a = zero_extend_reg(context, c0, 8)
+    b = zero_extend_reg(context, c1, 8)
+    return pattern_divu32(context, tree, a, b)
+
+
+@arm_isa.pattern("reg", "DIVU16(reg, reg)")
+def pattern_div_u16(context, tree, c0, c1):
+    a = zero_extend_reg(context, c0, 16)
+    b = zero_extend_reg(context, c1, 16)
+    return pattern_divu32(context, tree, a, b)
+
+
+@arm_isa.pattern("reg", "REMI8(reg, reg)")
+def pattern_rem_i8(context, tree, c0, c1):
+    a = sign_extend_reg(context, c0, 8)
+    b = sign_extend_reg(context, c1, 8)
+    return pattern_rem32(context, tree, a, b)
+
+
+@arm_isa.pattern("reg", "REMI16(reg, reg)")
+def pattern_rem_i16(context, tree, c0, c1):
+    a = sign_extend_reg(context, c0, 16)
+    b = sign_extend_reg(context, c1, 16)
+    return pattern_rem32(context, tree, a, b)
+
+
+@arm_isa.pattern("reg", "REMU8(reg, reg)")
+def pattern_rem_u8(context, tree, c0, c1):
+    a = zero_extend_reg(context, c0, 8)
+    b = zero_extend_reg(context, c1, 8)
+    return pattern_rem_u32(context, tree, a, b)
+
+
+@arm_isa.pattern("reg", "REMU16(reg, reg)")
+def pattern_rem_u16(context, tree, c0, c1):
+    a = zero_extend_reg(context, c0, 16)
+    b = zero_extend_reg(context, c1, 16)
+    return pattern_rem_u32(context, tree, a, b)
+
+
 @arm_isa.pattern("reg", "XORI8(reg, reg)", size=4)
 @arm_isa.pattern("reg", "XORU8(reg, reg)", size=4)
 @arm_isa.pattern("reg", "XORI16(reg, reg)", size=4)
